@@ -65,6 +65,23 @@ REVIEWED_FOREIGN = {
 }
 
 
+def _via_factory(a, f, exc, depth=0) -> bool:
+    """the raised value is built by newexcept()/expectedexcept(), directly or through a project function all of
+    whose returns are such calls (a wrapper that adds tracing, say)"""
+    if not isinstance(exc, ast.Call) or depth > 3:
+        return False
+    if dotted(exc.func).split('.')[-1] in ('newexcept', 'expectedexcept'):
+        return True
+    r = a.resolver.resolve_call(f, exc)
+    if r.kind != 'project' or not r.targets:
+        return False
+    for t in r.targets:
+        rets = [x.value for x in walk_no_defs(t.node) if isinstance(x, ast.Return)]
+        if not rets or not all(v is not None and _via_factory(a, t, v, depth + 1) for v in rets):
+            return False
+    return True
+
+
 def r1_one_factory(a, tier):
     rep = RuleReport(
         'C08.R1',
@@ -89,7 +106,7 @@ def r1_one_factory(a, tier):
             cls = tok.bound
             mro = a.ct.mro(cls)
             short = cls.split('.')[-1]
-            via_factory = isinstance(n.exc, ast.Call) and dotted(n.exc.func).split('.')[-1] in ('newexcept', 'expectedexcept')
+            via_factory = _via_factory(a, f, n.exc)
             rep.add({'function': f.qualname, 'raises': short, 'via_factory': via_factory})
             if via_factory:
                 continue
@@ -97,7 +114,9 @@ def r1_one_factory(a, tier):
                 rep.fail(f.qualname, f'direct-failedparse:{short}', f'`{norm(n)[:80]}` constructs a {short} directly instead of through '
                          f'newexcept(): its position/rule stack are whatever the caller passes', f'{f.module.relpath}:{n.lineno}')
             elif tatsu_exc not in mro:
-                if (f.qualname, short) not in REVIEWED_FOREIGN:
+                reviewed = {q for (q, s_) in REVIEWED_FOREIGN if s_ == short}
+                # a private helper reached only from reviewed functions raises on their behalf
+                if not a.callgraph.only_reached_through(f.qualname, reviewed):
                     rep.fail(f.qualname, f'foreign-raise:{short}', f'`{norm(n)[:80]}` raises {short}, which is not a TatSu exception, on '
                              f'the compile/parse path and is not in the reviewed table of API-misuse errors', f'{f.module.relpath}:{n.lineno}')
     # the factory binds the cursor and the call stack
